@@ -6,6 +6,10 @@ for be in ('EpollLoop', 'SelectLoop'):
 JOBS.append(Job('cross.EpollLoop', 'C01/loop_tasks.cpp', 'h_cross_thread', 'B', defs={'BACKEND': 'EpollLoop', 'VK_BLOCKING': None}, opts={'preempt': 2, 'timeouts': 1}, reach=['cross_thread'], timeout=1700,
                 clause='EpollLoop: a second thread submits 3 tasks (the last one exits the loop) while the loop starts / runs / sleeps in epoll_wait: all schedules with <= 2 preemptions, deadlock = lost wake-up, happens-before race check'))
 JOBS.append(Job('cross.EpollLoop.P3', 'C01/loop_tasks.cpp', 'h_cross_thread', 'B', defs={'BACKEND': 'EpollLoop', 'VK_BLOCKING': None}, opts={'preempt': 3, 'timeouts': 1}, reach=['cross_thread'], timeout=3400, tier='thorough', clause='same with preemption bound 3'))
+JOBS.append(Job('rerun.EpollLoop', 'C01/loop_tasks.cpp', 'h_rerun', 'B', defs={'BACKEND': 'EpollLoop', 'VK_BLOCKING': None}, opts={'preempt': 1, 'timeouts': 1}, reach=['rerun'], timeout=1700,
+                clause='EpollLoop: the loop stops (with or without a wake-up request still outstanding), is run again, and a second thread submits 2 tasks during the second run: no lost wake-up (deadlock), exactly once, <= 1 preemption'))
+JOBS.append(Job('rerun.SelectLoop', 'C01/loop_tasks.cpp', 'h_rerun', 'B', defs={'BACKEND': 'SelectLoop', 'VK_BLOCKING': None}, opts={'preempt': 1, 'timeouts': 1}, reach=['rerun'], timeout=1700,
+                clause='SelectLoop: same re-run scenario'))
 META = dict(
     explanation='The real CommonLoop (runInLoop / runNext / run / cancel / handleNextFunc / handleRunInLoopFunc / commitRunRequest / finishRunRequest / cleanupDeferredTasks / runThisBeforeLoop / runThisAfterLoop) with the real EpollLoop and SelectLoop back ends and fd events runs in engine/symir.py on a harness-level kernel seam (epoll, select, eventfd counter, read/write). '
                 'Sequential harness (both back ends): tasks submitted through runNext or runInLoop (symbolic) from the loop thread, one of them cancelled before the loop runs or from inside the first task of the running batch or never (symbolic), tasks submitted after the loop stopped; every task must run exactly once unless cancelled (then never), in submission order, on the loop/destroying thread. '
